@@ -2047,4 +2047,277 @@ theorem compReplace_ok_shape_plain (cfg : Cfg) (hlp : cfg.linkPrecheck = false) 
           | _ => simp at h
         | _ => simp at h
 
+/-! ## hard value failures: the reverts are exact (receiving object without value receivers) -/
+
+theorem setValF_noRecv (w : W) (f c : Nat) (v : Option Nat) (h : w.recv c = none) :
+    setValF w (f + 1) c v =
+      if w.g.kind c = .dataIn ∧ w.locked (w.g.owner c) = true then none
+      else if admitsV w c v = false then none
+      else some { w with val := updF w.val c v } := by
+  rw [setValF]
+  simp only [h]
+
+/-- the assignments of a log applied in order -/
+def overlay (f : Nat → Option Nat) : List (Nat × Option Nat) → Nat → Option Nat
+  | [] => f
+  | (c, v) :: r => overlay (updF f c v) r
+
+theorem overlay_updF_comm (m : Nat) (x : Option Nat) : ∀ (l : List (Nat × Option Nat)) (f : Nat → Option Nat),
+    m ∉ l.map Prod.fst → overlay (updF f m x) l = updF (overlay f l) m x := by
+  intro l
+  induction l with
+  | nil => intro f _; rfl
+  | cons e l ih =>
+    intro f hm
+    obtain ⟨c, v⟩ := e
+    simp only [List.map_cons, List.mem_cons, not_or] at hm
+    unfold overlay
+    have : updF (updF f m x) c v = updF (updF f c v) m x := by
+      funext z
+      simp only [updF]
+      grind
+    rw [this, ih _ hm.2]
+
+/-- the setter would accept `v` on `c` (no receiver involved) -/
+def OkSet (w : W) (c : Nat) (v : Option Nat) : Prop :=
+  ¬ (w.g.kind c = .dataIn ∧ w.locked (w.g.owner c) = true) ∧ admitsV w c v = true
+
+theorem revertVals_overlay (f : Nat) : ∀ (log : List (Nat × Option Nat)) (w : W),
+    (∀ e ∈ log, w.recv e.1 = none ∧ OkSet w e.1 e.2) →
+    revertVals (f + 1) w log = { w with val := overlay w.val log } := by
+  intro log
+  induction log with
+  | nil => intro w _; rfl
+  | cons e log ih =>
+    intro w h
+    obtain ⟨c, v⟩ := e
+    obtain ⟨hr, hlk, had⟩ := h (c, v) (List.mem_cons_self ..)
+    unfold revertVals
+    rw [setValF_noRecv w f c v hr, if_neg hlk]
+    simp only [had, Bool.true_eq_false, if_false]
+    rw [ih { w with val := updF w.val c v } (fun e he => h e (List.mem_cons_of_mem _ he))]
+    rfl
+
+/-- forward trace of `_copy_panel`: the new log entries hold the former values of distinct
+channels, each of which the setter accepted; replaying them gives the former values back -/
+theorem copyPanel_trace (f : Nat) (hard : Bool) : ∀ (ps : List (Option Nat × Nat)) (w : W)
+    (log : List (Nat × Option Nat)),
+    (∀ m oc, (some m, oc) ∈ ps → w.recv m = none) → (ps.filterMap (·.1)).Nodup →
+    ∃ new, (copyPanel (f + 1) hard w ps log).2.1 = log ++ new ∧
+      (∀ e ∈ new, e.1 ∈ ps.filterMap (·.1) ∧ e.2 = w.val e.1 ∧
+        ¬ (w.g.kind e.1 = .dataIn ∧ w.locked (w.g.owner e.1) = true)) ∧
+      overlay (copyPanel (f + 1) hard w ps log).1.val new = w.val := by
+  intro ps
+  induction ps with
+  | nil => intro w log _ _; exact ⟨[], (by simp [copyPanel]), (fun _ h => nomatch h), rfl⟩
+  | cons p ps ih =>
+    intro w log hnr hnd
+    obtain ⟨my, oc⟩ := p
+    have hnr' : ∀ m oc', (some m, oc') ∈ ps → w.recv m = none :=
+      fun m oc' h => hnr m oc' (List.mem_cons_of_mem _ h)
+    have lift : ∀ (new : List (Nat × Option Nat)),
+        (∀ e ∈ new, e.1 ∈ ps.filterMap (·.1) ∧ e.2 = w.val e.1 ∧
+          ¬ (w.g.kind e.1 = .dataIn ∧ w.locked (w.g.owner e.1) = true)) →
+        (∀ e ∈ new, e.1 ∈ ((my, oc) :: ps).filterMap (·.1) ∧ e.2 = w.val e.1 ∧
+          ¬ (w.g.kind e.1 = .dataIn ∧ w.locked (w.g.owner e.1) = true)) := by
+      intro new h e he
+      obtain ⟨h1, h2, h3⟩ := h e he
+      refine ⟨?_, h2, h3⟩
+      cases my with
+      | none => simpa using h1
+      | some m => simp only [List.filterMap_cons]; exact List.mem_cons_of_mem _ h1
+    have hnd' : (ps.filterMap (·.1)).Nodup := by
+      cases my with
+      | none => simpa using hnd
+      | some m => simp only [List.filterMap_cons, List.nodup_cons] at hnd; exact hnd.2
+    unfold copyPanel
+    cases hv : w.val oc with
+    | none =>
+      obtain ⟨new, h1, h2, h3⟩ := ih w log hnr' hnd'
+      exact ⟨new, h1, lift new h2, h3⟩
+    | some v =>
+      dsimp only
+      cases my with
+      | none =>
+        dsimp only
+        split
+        · exact ⟨[], (by simp), (fun _ h => nomatch h), rfl⟩
+        · obtain ⟨new, h1, h2, h3⟩ := ih w log hnr' hnd'
+          exact ⟨new, h1, lift new h2, h3⟩
+      | some m =>
+        dsimp only
+        have hrm := hnr m oc (List.mem_cons_self ..)
+        rw [setValF_noRecv w f m (some v) hrm]
+        by_cases hlk : w.g.kind m = .dataIn ∧ w.locked (w.g.owner m) = true
+        · rw [if_pos hlk]
+          dsimp only
+          split
+          · exact ⟨[], (by simp), (fun _ h => nomatch h), rfl⟩
+          · obtain ⟨new, h1, h2, h3⟩ := ih w log hnr' hnd'
+            exact ⟨new, h1, lift new h2, h3⟩
+        · rw [if_neg hlk]
+          by_cases had : admitsV w m (some v) = false
+          · rw [if_pos had]
+            dsimp only
+            split
+            · exact ⟨[], (by simp), (fun _ h => nomatch h), rfl⟩
+            · obtain ⟨new, h1, h2, h3⟩ := ih w log hnr' hnd'
+              exact ⟨new, h1, lift new h2, h3⟩
+          · rw [if_neg had]
+            dsimp only
+            simp only [List.filterMap_cons, List.nodup_cons] at hnd
+            obtain ⟨new, h1, h2, h3⟩ := ih { w with val := updF w.val m (some v) } (log ++ [(m, w.val m)]) hnr' hnd'
+            have hmnew : m ∉ new.map Prod.fst := by
+              intro hm
+              obtain ⟨e, he, hem⟩ := List.mem_map.mp hm
+              have := (h2 e he).1
+              rw [hem] at this
+              exact hnd.1 this
+            refine ⟨(m, w.val m) :: new, (by rw [h1]; simp), ?_, ?_⟩
+            · intro e he
+              rcases List.mem_cons.mp he with rfl | he'
+              · exact ⟨by simp, rfl, hlk⟩
+              · obtain ⟨g1, g2, g3⟩ := h2 e he'
+                refine ⟨by simp only [List.filterMap_cons]; exact List.mem_cons_of_mem _ g1, ?_, g3⟩
+                rw [g2]
+                have : e.1 ≠ m := fun h => hnd.1 (h ▸ g1)
+                simp [updF, this]
+            · show overlay (updF _ m (w.val m)) new = w.val
+              rw [overlay_updF_comm m _ new _ hmnew, h3]
+              funext z
+              by_cases hz : z = m <;> simp [updF, hz]
+
+/-- the unwinding of one panel is exact -/
+theorem copyPanel_revert (f : Nat) (hard : Bool) (ps : List (Option Nat × Nat)) (w : W)
+    (hnr : ∀ m oc, (some m, oc) ∈ ps → w.recv m = none) (hnd : (ps.filterMap (·.1)).Nodup)
+    (had : ∀ m, m ∈ ps.filterMap (·.1) → admitsV w m (w.val m) = true) :
+    revertVals (f + 1) (copyPanel (f + 1) hard w ps []).1 (copyPanel (f + 1) hard w ps []).2.1 = w := by
+  obtain ⟨new, h1, h2, h3⟩ := copyPanel_trace f hard ps w [] hnr hnd
+  obtain ⟨fv, hfv⟩ := copyPanel_valOnly (f + 1) hard ps w []
+  simp only [List.nil_append] at h1
+  rw [h1, revertVals_overlay f new]
+  · rw [h3, hfv]
+  · intro e he
+    obtain ⟨g1, g2, g3⟩ := h2 e he
+    obtain ⟨m', hm'⟩ : ∃ oc, (some e.1, oc) ∈ ps := by
+      obtain ⟨q, hq, hq2⟩ := List.mem_filterMap.mp g1
+      exact ⟨q.2, by cases q; simp_all⟩
+    rw [hfv]
+    refine ⟨hnr e.1 m' hm', g3, ?_⟩
+    rw [g2]
+    exact had e.1 g1
+
+theorem overlay_not_mem (m : Nat) : ∀ (l : List (Nat × Option Nat)) (f : Nat → Option Nat),
+    m ∉ l.map Prod.fst → overlay f l m = f m := by
+  intro l
+  induction l with
+  | nil => intro f _; rfl
+  | cons e l ih =>
+    intro f hm
+    obtain ⟨c, v⟩ := e
+    simp only [List.map_cons, List.mem_cons, not_or] at hm
+    unfold overlay
+    rw [ih _ hm.2]
+    simp [updF, hm.1]
+
+/-- what the value copy needs for its unwinding to be exact -/
+structure ValuesOk (cfg : Cfg) (w : W) (me other : Nat) : Prop where
+  fuelPos : 0 < cfg.fuel
+  noRecv : ∀ c, c ∈ (w.io me).inp ∨ c ∈ (w.io me).out → w.recv c = none
+  admitted : ∀ c, c ∈ (w.io me).inp ∨ c ∈ (w.io me).out → admitsV w c (w.val c) = true
+  distinctIn : ((panelPairs w (w.io me).inp (w.io other).inp).filterMap (·.1)).Nodup
+  distinctOut : ((panelPairs w (w.io me).out (w.io other).out).filterMap (·.1)).Nodup
+  disjoint : ∀ c, c ∈ (w.io me).inp → c ∉ (w.io me).out
+
+theorem panelPairs_target_mem (w : W) (mine theirs : List Nat) (m : Nat)
+    (h : m ∈ (panelPairs w mine theirs).filterMap (·.1)) : m ∈ mine := by
+  obtain ⟨q, hq, hq2⟩ := List.mem_filterMap.mp h
+  unfold panelPairs at hq
+  obtain ⟨oc, _, rfl⟩ := List.mem_map.mp hq
+  exact findLab_mem w mine _ m hq2
+
+theorem copyValues_atomic (cfg : Cfg) (hva : cfg.valuesAtomic = true) (w : W) (me other : Nat) (hard : Bool)
+    (hok : ValuesOk cfg w me other) (hfail : (copyValues cfg w me other hard).2 = false) :
+    (copyValues cfg w me other hard).1 = w := by
+  obtain ⟨f, hf⟩ : ∃ f, cfg.fuel = f + 1 := ⟨cfg.fuel - 1, by have := hok.fuelPos; omega⟩
+  have hin_mem : ∀ m oc, (some m, oc) ∈ panelPairs w (w.io me).inp (w.io other).inp → m ∈ (w.io me).inp := by
+    intro m oc h
+    exact panelPairs_target_mem w _ _ m (List.mem_filterMap.mpr ⟨(some m, oc), h, rfl⟩)
+  have hout_mem : ∀ m oc, (some m, oc) ∈ panelPairs w (w.io me).out (w.io other).out → m ∈ (w.io me).out := by
+    intro m oc h
+    exact panelPairs_target_mem w _ _ m (List.mem_filterMap.mpr ⟨(some m, oc), h, rfl⟩)
+  have hnr1 : ∀ m oc, (some m, oc) ∈ panelPairs w (w.io me).inp (w.io other).inp → w.recv m = none :=
+    fun m oc h => hok.noRecv m (.inl (hin_mem m oc h))
+  have hrev1 := copyPanel_revert f hard (panelPairs w (w.io me).inp (w.io other).inp) w hnr1 hok.distinctIn
+    (fun m h => hok.admitted m (.inl (panelPairs_target_mem w _ _ m h)))
+  obtain ⟨new1, t1, t2, t3⟩ := copyPanel_trace f hard (panelPairs w (w.io me).inp (w.io other).inp) w [] hnr1
+    hok.distinctIn
+  unfold copyValues at hfail ⊢
+  rw [hf] at hfail ⊢
+  have hv1 := copyPanel_valOnly (f + 1) hard (panelPairs w (w.io me).inp (w.io other).inp) w []
+  generalize copyPanel (f + 1) hard w (panelPairs w (w.io me).inp (w.io other).inp) [] = r1
+    at hfail hrev1 hv1 t1 t2 t3 ⊢
+  obtain ⟨w1, log1, f1⟩ := r1
+  cases f1 with
+  | true => exact hrev1
+  | false =>
+    dsimp only at hfail hrev1 hv1 t1 t3 ⊢
+    obtain ⟨fv1, hfv1⟩ := hv1
+    have hval : ∀ m, m ∈ (w.io me).out → w1.val m = w.val m := by
+      intro m hm
+      rw [← t3]
+      symm
+      apply overlay_not_mem
+      intro hmem
+      obtain ⟨e, he, hem⟩ := List.mem_map.mp hmem
+      have := panelPairs_target_mem w _ _ e.1 (t2 e he).1
+      rw [hem] at this
+      exact hok.disjoint m this hm
+    have hrev2 := copyPanel_revert f hard (panelPairs w (w.io me).out (w.io other).out) w1
+      (fun m oc h => by rw [hfv1]; exact hok.noRecv m (.inr (hout_mem m oc h))) hok.distinctOut
+      (fun m h => by
+        have hm := panelPairs_target_mem w _ _ m h
+        rw [hval m hm]
+        have := hok.admitted m (.inr hm)
+        rw [hfv1]
+        exact this)
+    generalize copyPanel (f + 1) hard w1 (panelPairs w (w.io me).out (w.io other).out) [] = r2 at hfail hrev2 ⊢
+    obtain ⟨w2, log2, f2⟩ := r2
+    cases f2 with
+    | false => simp at hfail
+    | true =>
+      dsimp only at hrev2 ⊢
+      rw [hva]
+      simp only [if_true]
+      rw [hrev2]
+      exact hrev1
+
+/-- `copy_io` with hard value failures, all repairs in place: all-or-nothing -/
+theorem copyIo_atomic_hard (cfg : Cfg) (honly : cfg.onlyNewUndo = true) (hva : cfg.valuesAtomic = true)
+    (w : W) (me other : Nat) (ch vh : Bool) (hinv : Inv w.g) (hok : ValuesOk cfg w me other)
+    (herr : (copyIo cfg w me other ch vh).2 ≠ .ok) : (copyIo cfg w me other ch vh).1 = w := by
+  unfold copyIo at herr ⊢
+  rw [honly] at herr ⊢
+  have hl := copyPairs_logged w.g ch (ioPairs w me other) hinv
+  generalize copyPairs true w.g ch (ioPairs w me other) [] = r at herr hl ⊢
+  obtain ⟨g', log, fl⟩ := r
+  cases fl with
+  | true =>
+    dsimp only at hl ⊢
+    rw [undo_logged hl.2.1 hl.2.2 hl.1]
+  | false =>
+    dsimp only at herr hl ⊢
+    have hok' : ValuesOk cfg { w with g := g' } me other :=
+      ⟨hok.fuelPos, hok.noRecv, hok.admitted, hok.distinctIn, hok.distinctOut, hok.disjoint⟩
+    have hat := copyValues_atomic cfg hva { w with g := g' } me other vh hok'
+    generalize copyValues cfg { w with g := g' } me other vh = rv at herr hat ⊢
+    obtain ⟨w2, okv⟩ := rv
+    cases okv with
+    | true => exact absurd rfl herr
+    | false =>
+      dsimp only at hat ⊢
+      rw [hat rfl]
+      dsimp only
+      rw [undo_logged hl.2.1 hl.2.2 hl.1]
+
 end PwVerif.Edit
